@@ -357,4 +357,765 @@ theorem Header.deserialize_WF (b : Bytes) (dh : DeserializedHeader) (h : Header.
     · cases h
   · cases h
 
+/-! ### parse totality (no panic) -/
+
+theorem Timestamp.deserialize_ne_panic (b : Bytes) : Timestamp.deserialize b ≠ .error .panic := by
+  unfold Timestamp.deserialize
+  split
+  · simp only []; split <;> simp
+  · simp
+theorem PortIdentity.deserialize_ne_panic (b : Bytes) : PortIdentity.deserialize b ≠ .error .panic := by
+  unfold PortIdentity.deserialize
+  split <;> simp
+
+theorem ClockQuality.deserialize_ne_panic (b : Bytes) : ClockQuality.deserialize b ≠ .error .panic := by
+  unfold ClockQuality.deserialize
+  split <;> simp
+
+/-- a bind whose parts do not panic does not panic -/
+theorem bind_ne_panic {α β : Type} (x : Except Fail α) (f : α → Except Fail β)
+    (hx : x ≠ .error .panic) (hf : ∀ a, f a ≠ .error .panic) : (x >>= f) ≠ .error .panic := by
+  cases x with
+  | error e => simp only [bind, Except.bind]; intro h; cases h; exact hx rfl
+  | ok a => simpa [bind, Except.bind] using hf a
+
+theorem len_ge_succ {b : Bytes} {n : Nat} (h : n + 1 ≤ b.length) : ∃ x tl, b = x :: tl ∧ n ≤ tl.length := by
+  cases b with
+  | nil => simp at h
+  | cons x tl => exact ⟨x, tl, rfl, by simpa using h⟩
+
+theorem Announce.deserialize_ne_panic (b : Bytes) : Announce.deserialize b ≠ .error .panic := by
+  unfold Announce.deserialize
+  split
+  · simp
+  · rename_i hl
+    apply bind_ne_panic _ _ (Timestamp.deserialize_ne_panic b)
+    intro origin
+    have hl : 30 ≤ b.length := by omega
+    obtain ⟨_, b0, rfl, h0⟩ := len_ge_succ hl
+    obtain ⟨_, b1, rfl, h1⟩ := len_ge_succ h0
+    obtain ⟨_, b2, rfl, h2⟩ := len_ge_succ h1
+    obtain ⟨_, b3, rfl, h3⟩ := len_ge_succ h2
+    obtain ⟨_, b4, rfl, h4⟩ := len_ge_succ h3
+    obtain ⟨_, b5, rfl, h5⟩ := len_ge_succ h4
+    obtain ⟨_, b6, rfl, h6⟩ := len_ge_succ h5
+    obtain ⟨_, b7, rfl, h7⟩ := len_ge_succ h6
+    obtain ⟨_, b8, rfl, h8⟩ := len_ge_succ h7
+    obtain ⟨_, b9, rfl, h9⟩ := len_ge_succ h8
+    obtain ⟨_, b10, rfl, h10⟩ := len_ge_succ h9
+    obtain ⟨_, b11, rfl, h11⟩ := len_ge_succ h10
+    obtain ⟨_, b12, rfl, h12⟩ := len_ge_succ h11
+    obtain ⟨_, b13, rfl, h13⟩ := len_ge_succ h12
+    obtain ⟨_, b14, rfl, h14⟩ := len_ge_succ h13
+    obtain ⟨_, b15, rfl, h15⟩ := len_ge_succ h14
+    obtain ⟨_, b16, rfl, h16⟩ := len_ge_succ h15
+    obtain ⟨_, b17, rfl, h17⟩ := len_ge_succ h16
+    obtain ⟨_, b18, rfl, h18⟩ := len_ge_succ h17
+    obtain ⟨_, b19, rfl, h19⟩ := len_ge_succ h18
+    obtain ⟨_, b20, rfl, h20⟩ := len_ge_succ h19
+    obtain ⟨_, b21, rfl, h21⟩ := len_ge_succ h20
+    obtain ⟨_, b22, rfl, h22⟩ := len_ge_succ h21
+    obtain ⟨_, b23, rfl, h23⟩ := len_ge_succ h22
+    obtain ⟨_, b24, rfl, h24⟩ := len_ge_succ h23
+    obtain ⟨_, b25, rfl, h25⟩ := len_ge_succ h24
+    obtain ⟨_, b26, rfl, h26⟩ := len_ge_succ h25
+    obtain ⟨_, b27, rfl, h27⟩ := len_ge_succ h26
+    obtain ⟨_, b28, rfl, h28⟩ := len_ge_succ h27
+    obtain ⟨_, b29, rfl, h29⟩ := len_ge_succ h28
+    simp [ClockQuality.deserialize, bind, Except.bind, pure, Except.pure]
+
+theorem Management.deserialize_ne_panic (b : Bytes) : Management.deserialize b ≠ .error .panic := by
+  unfold Management.deserialize
+  split
+  · simp
+  · rename_i hl
+    apply bind_ne_panic _ _ (PortIdentity.deserialize_ne_panic b)
+    intro origin
+    have hl : 14 ≤ b.length := by omega
+    obtain ⟨_, b0, rfl, h0⟩ := len_ge_succ hl
+    obtain ⟨_, b1, rfl, h1⟩ := len_ge_succ h0
+    obtain ⟨_, b2, rfl, h2⟩ := len_ge_succ h1
+    obtain ⟨_, b3, rfl, h3⟩ := len_ge_succ h2
+    obtain ⟨_, b4, rfl, h4⟩ := len_ge_succ h3
+    obtain ⟨_, b5, rfl, h5⟩ := len_ge_succ h4
+    obtain ⟨_, b6, rfl, h6⟩ := len_ge_succ h5
+    obtain ⟨_, b7, rfl, h7⟩ := len_ge_succ h6
+    obtain ⟨_, b8, rfl, h8⟩ := len_ge_succ h7
+    obtain ⟨_, b9, rfl, h9⟩ := len_ge_succ h8
+    obtain ⟨_, b10, rfl, h10⟩ := len_ge_succ h9
+    obtain ⟨_, b11, rfl, h11⟩ := len_ge_succ h10
+    obtain ⟨_, b12, rfl, h12⟩ := len_ge_succ h11
+    obtain ⟨_, b13, rfl, h13⟩ := len_ge_succ h12
+    simp [pure, Except.pure]
+
+theorem tsPort_ne_panic (b : Bytes) : tsPort b ≠ .error .panic := by
+  unfold tsPort
+  split
+  · simp
+  · apply bind_ne_panic _ _ (Timestamp.deserialize_ne_panic b)
+    intro t
+    apply bind_ne_panic _ _ (PortIdentity.deserialize_ne_panic _)
+    intro p; simp [pure, Except.pure]
+
+theorem Body.deserialize_ne_panic (ty : Nat) (b : Bytes) (hv : validType ty = true) :
+    Body.deserialize ty b ≠ .error .panic := by
+  unfold Body.deserialize
+  have hts := Timestamp.deserialize_ne_panic b
+  have htp := tsPort_ne_panic b
+  repeat' split
+  all_goals first
+    | (apply bind_ne_panic _ _ hts; intro t; simp [pure, Except.pure])
+    | (apply bind_ne_panic _ _ htp; intro t; simp [pure, Except.pure])
+    | (apply bind_ne_panic _ _ (Announce.deserialize_ne_panic b); intro t; simp [pure, Except.pure])
+    | (apply bind_ne_panic _ _ (Management.deserialize_ne_panic b); intro t; simp [pure, Except.pure])
+    | (apply bind_ne_panic _ _ (PortIdentity.deserialize_ne_panic b); intro t; simp [pure, Except.pure])
+    | (exfalso; simp [validType] at hv; omega)
+    | simp
+
+theorem tlvLoop_ne_panic (fuel : Nat) (b : Bytes) (h : b.length < fuel) : tlvLoop fuel b ≠ .error .panic := by
+  induction fuel generalizing b with
+  | zero => omega
+  | succ f ih =>
+    match b, h with
+    | [], _ => simp [tlvLoop]
+    | [_], _ => simp [tlvLoop]
+    | [_, _], _ => simp [tlvLoop]
+    | [_, _, _], _ => simp [tlvLoop]
+    | t0 :: t1 :: l0 :: l1 :: rest, h =>
+      simp only [tlvLoop]
+      split
+      · simp
+      · split
+        · simp
+        · apply ih
+          simp at h ⊢; omega
+
+theorem TlvSet.deserialize_ne_panic (b : Bytes) : TlvSet.deserialize b ≠ .error .panic := by
+  unfold TlvSet.deserialize
+  have := tlvLoop_ne_panic (b.length + 1) b (by omega)
+  split
+  · simp
+  · rename_i e he; intro h; cases h; exact this he
+
+theorem Header.deserialize_ne_panic (b : Bytes) : Header.deserialize b ≠ .error .panic := by
+  unfold Header.deserialize
+  split
+  · simp only []; split <;> simp
+  · simp
+
+/-- parse totality: `Message::deserialize` never panics -/
+theorem Message.deserialize_ne_panic (b : Bytes) : Message.deserialize b ≠ .error .panic := by
+  unfold Message.deserialize
+  cases hh : Header.deserialize b with
+  | error e => simp only [bind, Except.bind]; intro h; cases h; exact Header.deserialize_ne_panic b hh
+  | ok dh =>
+    simp only [bind, Except.bind]
+    obtain ⟨_, hv⟩ := Header.deserialize_WF b dh hh
+    split
+    · simp
+    · split
+      · simp
+      · cases hb : Body.deserialize dh.messageType ((b.take dh.messageLength).drop 34) with
+        | error e => simp only []; intro h; cases h; exact Body.deserialize_ne_panic _ _ hv hb
+        | ok body =>
+          simp only []
+          split
+          · simp
+          · cases hs : TlvSet.deserialize (((b.take dh.messageLength).drop 34).drop body.wireSize) with
+            | error e => simp only []; intro h; cases h; exact TlvSet.deserialize_ne_panic _ hs
+            | ok sfx => simp [pure, Except.pure]
+
+theorem Timestamp.deserialize_WF (b : Bytes) (t : Timestamp) (h : Timestamp.deserialize b = .ok t) : t.WF := by
+  unfold Timestamp.deserialize at h
+  split at h
+  · simp only [] at h
+    split at h
+    · cases h
+    · cases h
+      refine ⟨?_, by simp only []; omega⟩
+      exact Nat.lt_of_lt_of_le (beNat_lt _) (by simp)
+  · cases h
+
+
+/-- a validated TLV set iterates without panic (the iterator's `unwrap` and `debug_assert`) -/
+theorem iterLoop_of_tlvLoop (fuel fuel' : Nat) (b : Bytes) (h : tlvLoop fuel b = .ok ()) (hf : b.length < fuel') :
+    ∃ ts, iterLoop fuel' b = .ok ts := by
+  induction fuel generalizing b fuel' with
+  | zero => simp [tlvLoop] at h
+  | succ f ih =>
+    cases fuel' with
+    | zero => omega
+    | succ f' =>
+    match b, h, hf with
+    | [], _, _ => exact ⟨[], by simp [iterLoop]⟩
+    | [_], h, _ => simp [tlvLoop] at h
+    | [_, _], h, _ => simp [tlvLoop] at h
+    | [_, _, _], h, _ => simp [tlvLoop] at h
+    | t0 :: t1 :: l0 :: l1 :: rest, h, hf =>
+      simp only [tlvLoop] at h
+      split at h
+      · cases h
+      · split at h
+        · cases h
+        · rename_i h1 h2
+          obtain ⟨ts, hts⟩ := ih f' _ h (by simp at hf ⊢; omega)
+          refine ⟨⟨beNat [t0, t1], rest.take (beNat [l0, l1])⟩ :: ts, ?_⟩
+          simp only [iterLoop, Tlv.deserialize]
+          rw [if_neg h2]
+          simp only [Tlv.wireSize]
+          have : (rest.take (beNat [l0, l1])).length = beNat [l0, l1] := by
+            rw [List.length_take]; omega
+          have hd : List.drop (4 + (rest.take (beNat [l0, l1])).length) (t0 :: t1 :: l0 :: l1 :: rest)
+              = rest.drop (beNat [l0, l1]) := by
+            rw [this, Nat.add_comm]; simp
+          rw [hd, hts]
+
+theorem TlvSet.iter_of_deserialize (b s : Bytes) (h : TlvSet.deserialize b = .ok s) :
+    ∃ ts, TlvSet.iter s = .ok ts := by
+  unfold TlvSet.deserialize at h
+  split at h
+  · rename_i hl
+    cases h
+    exact iterLoop_of_tlvLoop _ _ _ hl (by omega)
+  · cases h
+
+theorem TlvSet.deserialize_eq (c s : Bytes) (h : TlvSet.deserialize c = .ok s) : s = c := by
+  unfold TlvSet.deserialize at h
+  split at h
+  · cases h; rfl
+  · cases h
+
+/-- inversion of a successful `Message::deserialize` -/
+theorem Message.deserialize_inv (b : Bytes) (m : Message) (h : Message.deserialize b = .ok m) :
+    ∃ dh, Header.deserialize b = .ok dh ∧ 34 ≤ dh.messageLength ∧ dh.messageLength ≤ b.length ∧
+      m.header = dh.header ∧
+      Body.deserialize dh.messageType ((b.take dh.messageLength).drop 34) = .ok m.body ∧
+      m.body.wireSize ≤ ((b.take dh.messageLength).drop 34).length ∧
+      TlvSet.deserialize (((b.take dh.messageLength).drop 34).drop m.body.wireSize) = .ok m.suffix := by
+  unfold Message.deserialize at h
+  cases hh : Header.deserialize b with
+  | error e => rw [hh] at h; cases h
+  | ok dh =>
+    rw [hh] at h
+    simp only [bind, Except.bind] at h
+    split at h
+    · cases h
+    · split at h
+      · cases h
+      · cases hb : Body.deserialize dh.messageType ((b.take dh.messageLength).drop 34) with
+        | error e => rw [hb] at h; cases h
+        | ok body =>
+          rw [hb] at h
+          simp only [] at h
+          split at h
+          · cases h
+          · cases hs : TlvSet.deserialize (((b.take dh.messageLength).drop 34).drop body.wireSize) with
+            | error e => rw [hs] at h; cases h
+            | ok sfx =>
+              rw [hs] at h
+              simp only [pure, Except.pure, Except.ok.injEq] at h
+              subst h
+              exact ⟨dh, rfl, by omega, by omega, rfl, hb, by simp only []; omega, hs⟩
+
+theorem Message.deserialize_suffix (b : Bytes) (m : Message) (h : Message.deserialize b = .ok m) :
+    TlvSet.deserialize m.suffix = .ok m.suffix := by
+  obtain ⟨dh, _, _, _, _, _, _, hs⟩ := Message.deserialize_inv b m h
+  have := TlvSet.deserialize_eq _ _ hs
+  rw [← this] at hs; exact hs
+
+/-! ### Announce / Management round trip, all bodies -/
+
+theorem ClockAccuracy.round (a : ClockAccuracy) (p : Nat) (hw : a.WF) (h : a.toPrimitive = .ok p) :
+    p < 256 ∧ ClockAccuracy.fromPrimitive p = a := by
+  cases a with
+  | reserved => cases h; simp [ClockAccuracy.fromPrimitive]
+  | unknown => cases h; simp [ClockAccuracy.fromPrimitive]
+  | named c =>
+    cases h
+    simp only [ClockAccuracy.WF] at hw
+    refine ⟨by omega, ?_⟩
+    simp [ClockAccuracy.fromPrimitive, hw.1, hw.2]
+  | profileSpecific v =>
+    simp only [ClockAccuracy.WF] at hw
+    simp only [ClockAccuracy.toPrimitive] at h
+    split at h
+    · cases h
+    · cases h
+      refine ⟨by omega, ?_⟩
+      unfold ClockAccuracy.fromPrimitive
+      rw [if_neg (by omega), if_pos (by omega)]
+      have e : 0x80 + v - 0x80 = v := Nat.add_sub_cancel_left _ _
+      rw [e]
+
+theorem TimeSource.round (t : TimeSource) (hw : t.WF) :
+    t.toPrimitive < 256 ∧ TimeSource.fromPrimitive t.toPrimitive = t := by
+  cases t with
+  | named c =>
+    simp only [TimeSource.WF] at hw
+    refine ⟨?_, by simp [TimeSource.fromPrimitive, TimeSource.toPrimitive, hw]⟩
+    have hc : c = 0x10 ∨ c = 0x20 ∨ c = 0x30 ∨ c = 0x39 ∨ c = 0x40 ∨ c = 0x50 ∨ c = 0x60 ∨ c = 0x90 ∨ c = 0xa0 := by
+      simpa [TimeSource.isNamed] using hw
+    simp only [TimeSource.toPrimitive]; omega
+  | profileSpecific v =>
+    simp only [TimeSource.WF] at hw
+    refine ⟨by simp only [TimeSource.toPrimitive]; omega, ?_⟩
+    have : TimeSource.isNamed v = false := by
+      simp [TimeSource.isNamed]; omega
+    simp [TimeSource.fromPrimitive, TimeSource.toPrimitive, this, hw.1, hw.2]
+  | reserved v =>
+    simp only [TimeSource.WF] at hw
+    refine ⟨by simp only [TimeSource.toPrimitive]; omega, ?_⟩
+    simp only [TimeSource.fromPrimitive, TimeSource.toPrimitive, hw.2.1]
+    simp [hw.2.2]
+
+theorem Announce.deser_ser (a : Announce) (old rest bb : Bytes) (hw : a.WF)
+    (h : (Body.announce a).serialize old = .ok bb) :
+    bb.length = 30 ∧ Announce.deserialize (bb ++ rest) = .ok a := by
+  obtain ⟨h1, h2, h3, ⟨h4, h5, h6⟩, h7, h8, h9, h10⟩ := hw
+  simp only [Body.serialize] at h
+  split at h
+  · rename_i stale _ _
+    cases hq : a.quality.accuracy.toPrimitive with
+    | error e => simp [ClockQuality.bytes, hq, bind, Except.bind] at h
+    | ok p =>
+      obtain ⟨hp, hfp⟩ := ClockAccuracy.round _ _ h5 hq
+      obtain ⟨hts, hfts⟩ := TimeSource.round _ h10
+      simp only [ClockQuality.bytes, hq, bind, Except.bind, pure, Except.pure, Except.ok.injEq] at h
+      subst h
+      refine ⟨by simp [Timestamp.bytes_length, beBytes_length], ?_⟩
+      unfold Announce.deserialize
+      rw [if_neg (by simp [Timestamp.bytes_length, beBytes_length]; omega)]
+      simp only [List.append_assoc]
+      rw [Timestamp.deser_bytes _ _ h1]
+      simp only [bind, Except.bind]
+      rw [← Timestamp.bytes_length a.origin, List.drop_left]
+      simp only [beBytes, List.cons_append, List.nil_append, ClockQuality.deserialize, List.drop_succ_cons,
+        List.drop_zero, be8, be2, toNat_ofNat, pure, Except.pure]
+      have e1 : a.utcOffset % 256 ^ 2 = a.utcOffset := Nat.mod_eq_of_lt (by omega)
+      have e2 : a.priority1 % 256 = a.priority1 := Nat.mod_eq_of_lt h3
+      have e3 : a.quality.clockClass % 256 = a.quality.clockClass := Nat.mod_eq_of_lt h4
+      have e4 : p % 256 = p := Nat.mod_eq_of_lt hp
+      have e5 : a.quality.variance % 256 ^ 2 = a.quality.variance := Nat.mod_eq_of_lt (by omega)
+      have e6 : a.priority2 % 256 = a.priority2 := Nat.mod_eq_of_lt h7
+      have e7 : a.identity % 256 ^ 8 = a.identity := Nat.mod_eq_of_lt (by omega)
+      have e8 : a.stepsRemoved % 256 ^ 2 = a.stepsRemoved := Nat.mod_eq_of_lt (by omega)
+      have e9 : a.timeSource.toPrimitive % 256 = a.timeSource.toPrimitive := Nat.mod_eq_of_lt hts
+      rw [e1, e2, e3, e4, e5, e6, e7, e8, e9, hfp, hfts]
+  · cases h
+
+theorem Management.deser_ser (m : Management) (old rest bb : Bytes) (hw : m.WF)
+    (h : (Body.management m).serialize old = .ok bb) :
+    bb.length = 14 ∧ Management.deserialize (bb ++ rest) = .ok m := by
+  obtain ⟨h1, h2, h3, h4⟩ := hw
+  simp only [Body.serialize] at h
+  split at h
+  · rename_i stale _ _
+    simp only [Except.ok.injEq] at h
+    subst h
+    refine ⟨by simp [PortIdentity.bytes_length], ?_⟩
+    unfold Management.deserialize
+    rw [if_neg (by simp [PortIdentity.bytes_length]; omega)]
+    simp only [List.append_assoc]
+    rw [PortIdentity.deser_bytes _ _ h1]
+    simp only [bind, Except.bind]
+    rw [← PortIdentity.bytes_length m.target, List.drop_left]
+    simp only [List.cons_append, List.nil_append, toNat_ofNat, pure, Except.pure]
+    have e1 : m.startingHops % 256 = m.startingHops := Nat.mod_eq_of_lt h2
+    have e2 : m.hops % 256 = m.hops := Nat.mod_eq_of_lt h3
+    have e3 : min (m.action % 256) 5 = m.action := by omega
+    rw [e1, e2, e3]
+  · cases h
+
+
+/-- every body: what `MessageBody::serialize` writes parses back to the same body -/
+theorem Body.deser_ser (b : Body) (old rest bb : Bytes) (hw : b.WF) (h : b.serialize old = .ok bb) :
+    bb.length = b.wireSize ∧ Body.deserialize b.type (bb ++ rest) = .ok b := by
+  cases hb : b with
+  | announce a =>
+    subst hb
+    obtain ⟨h1, h2⟩ := Announce.deser_ser a old rest bb hw h
+    refine ⟨h1, ?_⟩
+    simp [Body.deserialize, Body.type, h2, bind, Except.bind, pure, Except.pure]
+  | management g =>
+    subst hb
+    obtain ⟨h1, h2⟩ := Management.deser_ser g old rest bb hw h
+    refine ⟨h1, ?_⟩
+    simp [Body.deserialize, Body.type, h2, bind, Except.bind, pure, Except.pure]
+  | sync t => subst hb; exact Body.deser_ser_plain _ old rest bb hw rfl h
+  | delayReq t => subst hb; exact Body.deser_ser_plain _ old rest bb hw rfl h
+  | pDelayReq t => subst hb; exact Body.deser_ser_plain _ old rest bb hw rfl h
+  | pDelayResp t q => subst hb; exact Body.deser_ser_plain _ old rest bb hw rfl h
+  | followUp t => subst hb; exact Body.deser_ser_plain _ old rest bb hw rfl h
+  | delayResp t q => subst hb; exact Body.deser_ser_plain _ old rest bb hw rfl h
+  | pDelayRespFollowUp t q => subst hb; exact Body.deser_ser_plain _ old rest bb hw rfl h
+  | signaling q => subst hb; exact Body.deser_ser_plain _ old rest bb hw rfl h
+
+theorem Message.deser_ser_all (m : Message) (buf out extra : Bytes) (hw : m.WF)
+    (hs : TlvSet.deserialize m.suffix = .ok m.suffix) (h : m.serialize buf = .ok out) :
+    Message.deserialize (out ++ extra) = .ok m := by
+  obtain ⟨hwh, hwb⟩ := hw
+  unfold Message.serialize at h
+  split at h; · cases h
+  split at h; · cases h
+  unfold TlvSet.wireSize at h
+  split at h; · cases h
+  simp only [bind, Except.bind] at h
+  cases hhs : m.header.serialize m.body.type (m.body.wireSize + m.suffix.length) with
+  | error e => rw [hhs] at h; cases h
+  | ok hb =>
+    rw [hhs] at h
+    obtain ⟨hn, hlen, hdes⟩ := Header.deser_ser' _ _ _ _ hwh (Body.type_valid _) hhs
+    simp only at h
+    cases hbs : m.body.serialize ((buf.drop 34).take m.body.wireSize) with
+    | error e => rw [hbs] at h; cases h
+    | ok bb =>
+      rw [hbs] at h
+      simp only at h
+      split at h; · cases h
+      simp only [pure, Except.pure, Except.ok.injEq] at h
+      subst h
+      obtain ⟨hbl, hbd⟩ := Body.deser_ser m.body _ (m.suffix) bb hwb hbs
+      unfold Message.deserialize
+      have e1 : hb ++ bb ++ m.suffix ++ extra = hb ++ (bb ++ m.suffix ++ extra) := by simp
+      rw [e1, hdes]
+      simp only [bind, Except.bind]
+      rw [if_neg (by omega)]
+      have hl : (hb ++ (bb ++ m.suffix ++ extra)).length = m.body.wireSize + m.suffix.length + 34 + extra.length := by
+        simp [hlen, hbl]; omega
+      rw [if_neg (by rw [hl]; omega)]
+      have hc : ((hb ++ (bb ++ m.suffix ++ extra)).take (m.body.wireSize + m.suffix.length + 34)).drop 34
+          = bb ++ m.suffix := by
+        have : hb ++ (bb ++ m.suffix ++ extra) = (hb ++ bb ++ m.suffix) ++ extra := by simp
+        rw [this]
+        have hl2 : (hb ++ bb ++ m.suffix).length = m.body.wireSize + m.suffix.length + 34 := by
+          simp [hlen, hbl]; omega
+        rw [← hl2, List.take_left]
+        rw [List.append_assoc, ← hlen, List.drop_left]
+      simp only [hc, hbd]
+      rw [if_neg (by simp [hbl])]
+      rw [← hbl, List.drop_left, hs]
+      rfl
+
+
+/-! ### parsed messages are well-formed -/
+
+theorem PortIdentity.deserialize_WF (b : Bytes) (p : PortIdentity) (h : PortIdentity.deserialize b = .ok p) : p.WF := by
+  unfold PortIdentity.deserialize at h
+  split at h
+  · cases h
+    exact ⟨Nat.lt_of_lt_of_le (beNat_lt _) (by simp), Nat.lt_of_lt_of_le (beNat_lt _) (by simp)⟩
+  · cases h
+
+theorem ClockAccuracy.fromPrimitive_WF (v : Nat) (h : v < 256) : (ClockAccuracy.fromPrimitive v).WF := by
+  unfold ClockAccuracy.fromPrimitive
+  split
+  · simp only [ClockAccuracy.WF]; omega
+  · split
+    · simp only [ClockAccuracy.WF]; omega
+    · split <;> simp [ClockAccuracy.WF]
+
+theorem TimeSource.fromPrimitive_WF (v : Nat) (h : v < 256) : (TimeSource.fromPrimitive v).WF := by
+  unfold TimeSource.fromPrimitive
+  split
+  · rename_i hn; simpa [TimeSource.WF] using hn
+  · rename_i hn
+    split
+    · rename_i hr; simpa [TimeSource.WF] using hr
+    · rename_i hr
+      simp only [TimeSource.WF]
+      exact ⟨h, by simpa using hn, hr⟩
+
+theorem tsPort_WF (b : Bytes) (t : Timestamp) (p : PortIdentity) (h : tsPort b = .ok (t, p)) : t.WF ∧ p.WF := by
+  unfold tsPort at h
+  split at h
+  · cases h
+  · cases ht : Timestamp.deserialize b with
+    | error e => simp [ht, bind, Except.bind] at h
+    | ok t' =>
+      cases hp : PortIdentity.deserialize (b.drop 10) with
+      | error e => simp [ht, hp, bind, Except.bind] at h
+      | ok p' =>
+        simp [ht, hp, bind, Except.bind, pure, Except.pure] at h
+        obtain ⟨rfl, rfl⟩ := h
+        exact ⟨Timestamp.deserialize_WF _ _ ht, PortIdentity.deserialize_WF _ _ hp⟩
+
+
+theorem Announce.deserialize_WF (b : Bytes) (a : Announce) (h : Announce.deserialize b = .ok a) : a.WF := by
+  unfold Announce.deserialize at h
+  split at h
+  · cases h
+  · rename_i hl
+    cases ht : Timestamp.deserialize b with
+    | error e => simp [ht, bind, Except.bind] at h
+    | ok origin =>
+    have hto := Timestamp.deserialize_WF _ _ ht
+    rw [ht] at h
+    simp only [bind, Except.bind] at h
+    have hl : 30 ≤ b.length := by omega
+    obtain ⟨x0, b0, rfl, h0⟩ := len_ge_succ hl
+    obtain ⟨x1, b1, rfl, h1⟩ := len_ge_succ h0
+    obtain ⟨x2, b2, rfl, h2⟩ := len_ge_succ h1
+    obtain ⟨x3, b3, rfl, h3⟩ := len_ge_succ h2
+    obtain ⟨x4, b4, rfl, h4⟩ := len_ge_succ h3
+    obtain ⟨x5, b5, rfl, h5⟩ := len_ge_succ h4
+    obtain ⟨x6, b6, rfl, h6⟩ := len_ge_succ h5
+    obtain ⟨x7, b7, rfl, h7⟩ := len_ge_succ h6
+    obtain ⟨x8, b8, rfl, h8⟩ := len_ge_succ h7
+    obtain ⟨x9, b9, rfl, h9⟩ := len_ge_succ h8
+    obtain ⟨x10, b10, rfl, h10⟩ := len_ge_succ h9
+    obtain ⟨x11, b11, rfl, h11⟩ := len_ge_succ h10
+    obtain ⟨x12, b12, rfl, h12⟩ := len_ge_succ h11
+    obtain ⟨x13, b13, rfl, h13⟩ := len_ge_succ h12
+    obtain ⟨x14, b14, rfl, h14⟩ := len_ge_succ h13
+    obtain ⟨x15, b15, rfl, h15⟩ := len_ge_succ h14
+    obtain ⟨x16, b16, rfl, h16⟩ := len_ge_succ h15
+    obtain ⟨x17, b17, rfl, h17⟩ := len_ge_succ h16
+    obtain ⟨x18, b18, rfl, h18⟩ := len_ge_succ h17
+    obtain ⟨x19, b19, rfl, h19⟩ := len_ge_succ h18
+    obtain ⟨x20, b20, rfl, h20⟩ := len_ge_succ h19
+    obtain ⟨x21, b21, rfl, h21⟩ := len_ge_succ h20
+    obtain ⟨x22, b22, rfl, h22⟩ := len_ge_succ h21
+    obtain ⟨x23, b23, rfl, h23⟩ := len_ge_succ h22
+    obtain ⟨x24, b24, rfl, h24⟩ := len_ge_succ h23
+    obtain ⟨x25, b25, rfl, h25⟩ := len_ge_succ h24
+    obtain ⟨x26, b26, rfl, h26⟩ := len_ge_succ h25
+    obtain ⟨x27, b27, rfl, h27⟩ := len_ge_succ h26
+    obtain ⟨x28, b28, rfl, h28⟩ := len_ge_succ h27
+    obtain ⟨x29, b29, rfl, h29⟩ := len_ge_succ h28
+    simp only [List.drop_succ_cons, List.drop_zero, ClockQuality.deserialize, pure, Except.pure,
+      Except.ok.injEq] at h
+    subst h
+    refine ⟨hto, ?_, UInt8.toNat_lt _, ⟨UInt8.toNat_lt _, ClockAccuracy.fromPrimitive_WF _ (UInt8.toNat_lt _), ?_⟩,
+      UInt8.toNat_lt _, ?_, ?_, TimeSource.fromPrimitive_WF _ (UInt8.toNat_lt _)⟩
+    all_goals exact Nat.lt_of_lt_of_le (beNat_lt _) (by simp)
+
+theorem Management.deserialize_WF (b : Bytes) (g : Management) (h : Management.deserialize b = .ok g) : g.WF := by
+  unfold Management.deserialize at h
+  split at h
+  · cases h
+  · rename_i hl
+    cases ht : PortIdentity.deserialize b with
+    | error e => simp [ht, bind, Except.bind] at h
+    | ok tp =>
+    have hto := PortIdentity.deserialize_WF _ _ ht
+    rw [ht] at h
+    simp only [bind, Except.bind] at h
+    have hl : 14 ≤ b.length := by omega
+    obtain ⟨x0, b0, rfl, h0⟩ := len_ge_succ hl
+    obtain ⟨x1, b1, rfl, h1⟩ := len_ge_succ h0
+    obtain ⟨x2, b2, rfl, h2⟩ := len_ge_succ h1
+    obtain ⟨x3, b3, rfl, h3⟩ := len_ge_succ h2
+    obtain ⟨x4, b4, rfl, h4⟩ := len_ge_succ h3
+    obtain ⟨x5, b5, rfl, h5⟩ := len_ge_succ h4
+    obtain ⟨x6, b6, rfl, h6⟩ := len_ge_succ h5
+    obtain ⟨x7, b7, rfl, h7⟩ := len_ge_succ h6
+    obtain ⟨x8, b8, rfl, h8⟩ := len_ge_succ h7
+    obtain ⟨x9, b9, rfl, h9⟩ := len_ge_succ h8
+    obtain ⟨x10, b10, rfl, h10⟩ := len_ge_succ h9
+    obtain ⟨x11, b11, rfl, h11⟩ := len_ge_succ h10
+    obtain ⟨x12, b12, rfl, h12⟩ := len_ge_succ h11
+    obtain ⟨x13, b13, rfl, h13⟩ := len_ge_succ h12
+    simp only [List.drop_succ_cons, List.drop_zero, pure, Except.pure, Except.ok.injEq] at h
+    subst h
+    exact ⟨hto, UInt8.toNat_lt _, UInt8.toNat_lt _, Nat.min_le_right _ _⟩
+
+theorem Body.deserialize_WF (ty : Nat) (b : Bytes) (body : Body) (h : Body.deserialize ty b = .ok body) :
+    body.WF ∧ body.type = ty := by
+  unfold Body.deserialize at h
+  split at h
+  · rename_i hty; subst hty
+    cases ht : Timestamp.deserialize b with
+    | error e => simp [ht, bind, Except.bind] at h
+    | ok t =>
+      simp [ht, bind, Except.bind, pure, Except.pure] at h
+      subst h; exact ⟨Timestamp.deserialize_WF _ _ ht, rfl⟩
+  split at h
+  · rename_i hty; subst hty
+    cases ht : Timestamp.deserialize b with
+    | error e => simp [ht, bind, Except.bind] at h
+    | ok t =>
+      simp [ht, bind, Except.bind, pure, Except.pure] at h
+      subst h; exact ⟨Timestamp.deserialize_WF _ _ ht, rfl⟩
+  split at h
+  · rename_i hty; subst hty
+    split at h
+    · cases h
+    ·
+      cases ht : Timestamp.deserialize b with
+      | error e => simp [ht, bind, Except.bind] at h
+      | ok t =>
+        simp [ht, bind, Except.bind, pure, Except.pure] at h
+        subst h; exact ⟨Timestamp.deserialize_WF _ _ ht, rfl⟩
+  split at h
+  · rename_i hty; subst hty
+    cases ht : tsPort b with
+    | error e => simp [ht, bind, Except.bind] at h
+    | ok r =>
+      obtain ⟨t, p⟩ := r
+      simp [ht, bind, Except.bind, pure, Except.pure] at h
+      subst h; exact ⟨tsPort_WF _ _ _ ht, rfl⟩
+  split at h
+  · rename_i hty; subst hty
+    cases ht : Timestamp.deserialize b with
+    | error e => simp [ht, bind, Except.bind] at h
+    | ok t =>
+      simp [ht, bind, Except.bind, pure, Except.pure] at h
+      subst h; exact ⟨Timestamp.deserialize_WF _ _ ht, rfl⟩
+  split at h
+  · rename_i hty; subst hty
+    cases ht : tsPort b with
+    | error e => simp [ht, bind, Except.bind] at h
+    | ok r =>
+      obtain ⟨t, p⟩ := r
+      simp [ht, bind, Except.bind, pure, Except.pure] at h
+      subst h; exact ⟨tsPort_WF _ _ _ ht, rfl⟩
+  split at h
+  · rename_i hty; subst hty
+    cases ht : tsPort b with
+    | error e => simp [ht, bind, Except.bind] at h
+    | ok r =>
+      obtain ⟨t, p⟩ := r
+      simp [ht, bind, Except.bind, pure, Except.pure] at h
+      subst h; exact ⟨tsPort_WF _ _ _ ht, rfl⟩
+  split at h
+  · rename_i hty; subst hty
+    cases ht : Announce.deserialize b with
+    | error e => simp [ht, bind, Except.bind] at h
+    | ok t =>
+      simp [ht, bind, Except.bind, pure, Except.pure] at h
+      subst h; exact ⟨Announce.deserialize_WF _ _ ht, rfl⟩
+  split at h
+  · rename_i hty; subst hty
+    cases ht : PortIdentity.deserialize b with
+    | error e => simp [ht, bind, Except.bind] at h
+    | ok t =>
+      simp [ht, bind, Except.bind, pure, Except.pure] at h
+      subst h; exact ⟨PortIdentity.deserialize_WF _ _ ht, rfl⟩
+  split at h
+  · rename_i hty; subst hty
+    cases ht : Management.deserialize b with
+    | error e => simp [ht, bind, Except.bind] at h
+    | ok t =>
+      simp [ht, bind, Except.bind, pure, Except.pure] at h
+      subst h; exact ⟨Management.deserialize_WF _ _ ht, rfl⟩
+  · cases h
+
+
+/-! ### parse, then re-serialise -/
+
+theorem tlvLoop_even (fuel : Nat) (b : Bytes) (h : tlvLoop fuel b = .ok ()) : b.length % 2 = 0 := by
+  induction fuel generalizing b with
+  | zero => simp [tlvLoop] at h
+  | succ f ih =>
+    match b, h with
+    | [], _ => rfl
+    | [_], h => simp [tlvLoop] at h
+    | [_, _], h => simp [tlvLoop] at h
+    | [_, _, _], h => simp [tlvLoop] at h
+    | t0 :: t1 :: l0 :: l1 :: rest, h =>
+      simp only [tlvLoop] at h
+      split at h
+      · cases h
+      · split at h
+        · cases h
+        · rename_i h1 h2
+          have := ih _ h
+          simp only [List.length_drop] at this
+          simp only [List.length_cons]
+          omega
+
+theorem Body.serialize_ok (body : Body) (old : Bytes) (hw : body.WF) (hl : old.length = body.wireSize) :
+    ∃ bb, body.serialize old = .ok bb := by
+  cases body with
+  | announce a =>
+    simp only [Body.wireSize] at hl
+    obtain ⟨_, _, _, ⟨_, ha, _⟩, _⟩ := hw
+    have hq : ∃ p, a.quality.accuracy.toPrimitive = .ok p := by
+      cases hacc : a.quality.accuracy with
+      | profileSpecific v =>
+        rw [hacc] at ha
+        simp only [ClockAccuracy.WF] at ha
+        exact ⟨0x80 + v, by simp only [ClockAccuracy.toPrimitive]; rw [if_neg (by omega)]⟩
+      | reserved => exact ⟨_, rfl⟩
+      | named c => exact ⟨_, rfl⟩
+      | unknown => exact ⟨_, rfl⟩
+    obtain ⟨p, hp⟩ := hq
+    simp only [Body.serialize]
+    cases hd : old.drop 12 with
+    | nil =>
+      have := congrArg List.length hd
+      simp at this; omega
+    | cons s tl => simp [ClockQuality.bytes, hp, bind, Except.bind, pure, Except.pure]
+  | management g =>
+    simp only [Body.wireSize] at hl
+    simp only [Body.serialize]
+    cases hd : old.drop 10 with
+    | nil =>
+      have := congrArg List.length hd
+      simp at this; omega
+    | cons s tl => exact ⟨_, rfl⟩
+  | sync t => exact ⟨_, rfl⟩
+  | delayReq t => exact ⟨_, rfl⟩
+  | pDelayReq t => exact ⟨_, rfl⟩
+  | pDelayResp t q => exact ⟨_, rfl⟩
+  | followUp t => exact ⟨_, rfl⟩
+  | delayResp t q => exact ⟨_, rfl⟩
+  | pDelayRespFollowUp t q => exact ⟨_, rfl⟩
+  | signaling q => exact ⟨_, rfl⟩
+
+/-- parse, then re-serialise: succeeds into any buffer that holds `messageLength` bytes, produces exactly
+    `messageLength` bytes ending in the input's TLV bytes verbatim, and the result is a canonical
+    representative: it parses (with any trailing bytes) to the very same message. -/
+theorem Message.parse_then_ser_canon (b buf : Bytes) (m : Message) (h : Message.deserialize b = .ok m) :
+    ∃ dh, Header.deserialize b = .ok dh ∧ (dh.messageLength ≤ buf.length →
+      ∃ out, m.serialize buf = .ok out ∧ out.length = dh.messageLength ∧
+        out.drop (34 + m.body.wireSize) = (b.take dh.messageLength).drop (34 + m.body.wireSize) ∧
+        ∀ extra, Message.deserialize (out ++ extra) = .ok m) := by
+  obtain ⟨dh, hh, h34, hlen, hhd, hbody, hws, hsfx⟩ := Message.deserialize_inv b m h
+  refine ⟨dh, hh, ?_⟩
+  intro hbuf
+  obtain ⟨hwh, hvt⟩ := Header.deserialize_WF b dh hh
+  obtain ⟨hwb, hty⟩ := Body.deserialize_WF _ _ _ hbody
+  have hseq := TlvSet.deserialize_eq _ _ hsfx
+  have hml : dh.messageLength < 2 ^ 16 := by
+    unfold Header.deserialize at hh
+    split at hh
+    · simp only [] at hh
+      split at hh
+      · cases hh; exact Nat.lt_of_lt_of_le (beNat_lt _) (by simp)
+      · cases hh
+    · cases hh
+  have hclen : ((b.take dh.messageLength).drop 34).length = dh.messageLength - 34 := by
+    simp [List.length_take]; omega
+  have hsl : m.suffix.length = dh.messageLength - 34 - m.body.wireSize := by
+    rw [hseq, List.length_drop, hclen]
+  have heven : m.suffix.length % 2 = 0 := by
+    have hv := Message.deserialize_suffix b m h
+    unfold TlvSet.deserialize at hv
+    split at hv
+    · rename_i hl; exact tlvLoop_even _ _ hl
+    · cases hv
+  rw [hclen] at hws
+  have hmwf : m.WF := ⟨by rw [hhd]; exact hwh, hwb⟩
+  obtain ⟨bb, hbb⟩ := Body.serialize_ok m.body ((buf.drop 34).take m.body.wireSize) hwb
+    (by simp [List.length_take]; omega)
+  obtain ⟨hb, hhs, hhl, _⟩ := Header.deser_ser m.header m.body.type (m.body.wireSize + m.suffix.length) [] hmwf.1
+    (Body.type_valid _) (by omega)
+  have hser : m.serialize buf = .ok (hb ++ bb ++ m.suffix) := by
+    unfold Message.serialize
+    rw [if_neg (by omega), if_neg (by omega)]
+    unfold TlvSet.wireSize
+    rw [if_neg (by omega)]
+    simp only [bind, Except.bind, hhs, hbb]
+    rw [if_neg (by omega)]
+    rfl
+  have hbbl : bb.length = m.body.wireSize := (Body.deser_ser m.body _ [] bb hwb hbb).1
+  refine ⟨_, hser, by simp [hhl, hbbl, hsl]; omega, ?_, ?_⟩
+  · have : (hb ++ bb).length = 34 + m.body.wireSize := by simp [hhl, hbbl]
+    rw [← this, List.drop_left, hseq, List.drop_drop]
+    congr 1; omega
+  · intro extra
+    exact Message.deser_ser_all m buf _ extra hmwf (Message.deserialize_suffix b m h) hser
+
+
 end NtpVerif.PtpWire
